@@ -19,6 +19,9 @@ pub struct C14;
 pub enum Ev14 {
     Mine(MineSpec),
     Plan { max_blocks: u8, announce: u8 },
+    /// The next block is delivered in `pages`+1 pieces; the headers are announced with the
+    /// first (partial) piece.
+    PlanPaged { pages: u8, cut: u16, announce: u8 },
     Beat,
     SetFlags { api: Option<bool>, sync: Option<bool> },
     Upgrade,
@@ -342,6 +345,7 @@ impl Property for C14 {
         let ev = prop_oneof![
             8 => mine_strategy(1).prop_map(Ev14::Mine),
             5 => (1u8..3, 0u8..7).prop_map(|(max_blocks, announce)| Ev14::Plan { max_blocks, announce }),
+            2 => (1u8..4, 0u16..=1000, 0u8..7).prop_map(|(pages, cut, announce)| Ev14::PlanPaged { pages, cut, announce }),
             10 => Just(Ev14::Beat),
             3 => (prop_oneof![2 => Just(None), 1 => any::<bool>().prop_map(Some)], prop_oneof![1 => Just(None), 2 => any::<bool>().prop_map(Some)]).prop_map(|(api, sync)| Ev14::SetFlags { api, sync }),
             1 => Just(Ev14::Upgrade),
@@ -365,7 +369,7 @@ impl Property for C14 {
         }
     }
     fn rule(&self) -> String {
-        "Heartbeat-driver scenarios on regtest where the block source delivers 1..2 blocks per reply and announces 0..6 further headers (on the best chain and on forks; stale after a fork loses; removed when their block arrives or the stable height reaches them), with api_access and disable_api_if_not_fully_synced switched by set_config events and upgrades in between. After every heartbeat and at probe events every endpoint (get_utxos, get_utxos_query, get_balance, get_balance_query, get_block_headers, get_current_fee_percentiles, send_transaction) is called with the canister's network in two spellings and with the four foreign spellings. Oracle: refuse <=> api disabled, or another network named, or (sync flag on and the highest announced header, from an independent model of announced headers, is more than 2 above the best-chain height) with send_transaction exempt from the last clause; a refusal is a trap with no change of state, no cycles accepted and nothing forwarded; otherwise a well-formed request is answered; get_config and get_blockchain_info always answer. Two in five cases use the direct driver on regtest with per-block difficulties (heavier-but-shorter best chains), headers announced through insert_next_block_headers on any block of the tree and later delivered or left stale. Non-trivial: a probe in a state where the sync flag is on and an announced header is exactly 2 or 3 above the best height or on a non-best fork; distinct = (flags, best height, announced heights) hashes.".into()
+        "Heartbeat-driver scenarios on regtest where the block source delivers 1..2 blocks per reply, or one block in 2..4 pages, and announces 0..6 further headers (with the complete reply, or with the first page of a paged one) (on the best chain and on forks; stale after a fork loses; removed when their block arrives or the stable height reaches them), with api_access and disable_api_if_not_fully_synced switched by set_config events and upgrades in between. After every heartbeat and at probe events every endpoint (get_utxos, get_utxos_query, get_balance, get_balance_query, get_block_headers, get_current_fee_percentiles, send_transaction) is called with the canister's network in two spellings and with the four foreign spellings. Oracle: refuse <=> api disabled, or another network named, or (sync flag on and the highest announced header, from an independent model of announced headers, is more than 2 above the best-chain height) with send_transaction exempt from the last clause; a refusal is a trap with no change of state, no cycles accepted and nothing forwarded; otherwise a well-formed request is answered; get_config and get_blockchain_info always answer. Two in five cases use the direct driver on regtest with per-block difficulties (heavier-but-shorter best chains), headers announced through insert_next_block_headers on any block of the tree and later delivered or left stale. Non-trivial: a probe in a state where the sync flag is on and an announced header is exactly 2 or 3 above the best height or on a non-best fork; distinct = (flags, best height, announced heights) hashes.".into()
     }
     fn assumptions(&self) -> Vec<String> {
         vec![
@@ -374,7 +378,7 @@ impl Property for C14 {
         ]
     }
     fn required_classes(&self, _tier: Tier) -> Vec<&'static str> {
-        vec!["not_synced_state", "announced_exactly_2_ahead", "announced_exactly_3_ahead", "send_transaction_exempt_from_sync_rule", "api_disabled_probe", "foreign_network_probe", "refused_by_sync_rule", "announced_on_losing_fork", "direct_driver_case", "gate_decided_by_difficulty_not_length", "announced_block_delivered"]
+        vec!["not_synced_state", "announced_exactly_2_ahead", "announced_exactly_3_ahead", "send_transaction_exempt_from_sync_rule", "api_disabled_probe", "foreign_network_probe", "refused_by_sync_rule", "announced_on_losing_fork", "direct_driver_case", "gate_decided_by_difficulty_not_length", "announced_block_delivered", "paged_reply_planned"]
     }
     fn max_shrink_iters(&self) -> u32 {
         400
@@ -403,6 +407,10 @@ impl Property for C14 {
                     hw.mine(m.parent, m.prefer_tip, &m.coinbase, &m.txs, m.dt);
                 }
                 Ev14::Plan { max_blocks, announce } => hw.plan(ReplyPlan::Complete { max_blocks: *max_blocks, announce: *announce }),
+                Ev14::PlanPaged { pages, cut, announce } => {
+                    out.class("paged_reply_planned");
+                    hw.plan(ReplyPlan::Split { pages: *pages, cuts: vec![*cut, 1000 - *cut / 2], announce: *announce, reject_at: None })
+                }
                 Ev14::SetFlags { api: a, sync: s } => {
                     can::set_config(SetConfigRequest {
                         api_access: a.map(|b| if b { Flag::Enabled } else { Flag::Disabled }),
